@@ -551,11 +551,11 @@ Proof.
 Qed.
 
 (* ---------------------------------------------------------------- corollaries *)
-Theorem model_meets_spec_nocancel : forall c, k_cancel c = None ->
-  spec_C14 c (fst (hs_run true c)) (snd (hs_run true c)) = true.
+Theorem model_meets_core_nocancel : forall c, k_cancel c = None ->
+  spec_C14_core c (fst (hs_run true c)) (snd (hs_run true c)) = true.
 Proof.
   intros c Hc. destruct (hs_run true c) as [oo oi] eqn:E. cbn [fst snd].
-  unfold spec_C14. destruct (run_sound c oo oi E) as [H1 H2]. rewrite H1, H2. cbn [andb].
+  unfold spec_C14_core. destruct (run_sound c oo oi E) as [H1 H2]. rewrite H1, H2. cbn [andb].
   destruct (all_pass c) eqn:A; [|reflexivity].
   unfold cancel_eff. rewrite Hc.
   destruct (honest_nocancel c A Hc) as [V1 [V2 _]]. rewrite E in V1, V2. cbn [fst snd] in V1, V2.
@@ -693,9 +693,6 @@ Proof.
   apply forallb_forall. intros x Hx. apply repeat_spec in Hx. subst x. apply result_eqb_refl.
 Qed.
 
-Lemma spec_C14_with_pools : forall c po pi oo oi, spec_C14 (with_pools c po pi) oo oi = spec_C14 c oo oi.
-Proof. intros c po pi oo oi. reflexivity. Qed.
-
 (* the outcomes of the model session are those of [session] *)
 Lemma model_session_outcomes : forall fx l po pi,
   map (fun s => (so_out s, so_in s)) (model_session fx po pi l)
@@ -707,18 +704,3 @@ Proof.
   cbn [map so_out so_in]. rewrite IH. destruct (hs_run fx (with_pools c po pi)); reflexivity.
 Qed.
 
-(* every session of the (repaired) model, whatever the pooled objects were used for before, satisfies the session
-   predicate: each handshake meets spec_C14 and every connection's labels stay what they were *)
-Theorem model_session_meets_spec : forall l po pi,
-  (forall c no ni, In (c, no, ni) l -> k_cancel c = None) ->
-  spec_C14_session (model_session true po pi l) = true.
-Proof.
-  induction l as [|[[c no] ni] r IH]; intros po pi Hnc; [reflexivity|].
-  cbn [model_session].
-  destruct (hs_pools true (with_pools c po pi)) as [po' pi'] eqn:Hp.
-  unfold spec_C14_session. cbn [forallb so_case so_out so_in so_later_out so_later_in].
-  rewrite !labels_stable_later_reads.
-  rewrite <- (spec_C14_with_pools c po pi).
-  rewrite model_meets_spec_nocancel by (cbn [with_pools k_cancel]; apply (Hnc c no ni); left; reflexivity).
-  cbn [andb]. apply IH. intros c0 no0 ni0 Hin. apply (Hnc c0 no0 ni0). right. exact Hin.
-Qed.
